@@ -531,6 +531,11 @@ def run(ck):
         # was readable looked at before this test is reached?
         readable_first = any(r.id in dom15.get(b.id, ()) and r.id != b.id for r in rbs) or \
             any((ENTRY + "isReadable") in (x.term.get("refs") or []) for x in [b])
+        # (`const bool readable = entry.isReadable();` evaluated before the writable test counts as well: the readable half is then
+        # handled on that local)
+        if not readable_first:
+            rd_ev = [e_ for e_ in g15.events(("decl", "call")) if (ENTRY + "isReadable") in (e_.get("refs") or []) or (e_.get("callee") or "") == ENTRY[2:] + "isReadable"]
+            readable_first = any(e_.block in dom15.get(b.id, ()) or (e_.block == b.id) for e_ in rd_ev)
         unarmed = []
 
         def step15(st, ev):
